@@ -15,6 +15,7 @@ HOSTILE = ['x = 1', 'a == b # c', '# # #', '(0) (k-1) (t-1)', 'MaxTime = 3', 'th
 HOSTILE += ['Government consumption of goods and services, which this version of the model treats as exogenous = 20 per period',
             'z' * 70 + ' exogenous ' + 'y' * 40 + ' # x = 1',
             'a very long description ' * 6 + 'EXOGENOUS variables follow (0) (k-1)']
+HOSTILE += ['Household {alpha_1 = 0.6}', 'share {0} of {1}', 'a lone { brace', '}{', '{k-1} = {}', '100% {:d} %s %(x)s']
 HOSTILE_NOMARK = [h for h in HOSTILE if 'exogenous' not in h.lower()]
 MALFORMED = ['just some words', 'a = b = c', 'LL = {v}(k-1) + 1', 'LL = 2*{v}(k-1)', 'LL = {v}(t-1) - {v}',
              'LL = 0.5 *{v} (k -1 )', 'LL = {v} (k -1 ) + 1', 'LL = {v} (k -1 )*{v} (k -1 )', 'LL = 1 + {v}(t-1)',
@@ -169,14 +170,24 @@ class C14(object):
                          'block.judged.with_names_differing_from_reserved_ones_by_case', 'block.judged.with_indented_comment_marker',
                          'model_desc.judged',
                          'block.judged.with_expressions_that_look_like_lag_spellings',
-                         'reused_parser.after_a_failed_parse')
+                         'reused_parser.after_a_failed_parse',
+                         'model_desc.builds_with_log_files_registered',
+                         'run_parameters_on_reused_solver.judged')
 
     def n_cases(self, tier):
         return 300 if tier == 'quick' else 20000
 
     def make_case(self, rng, idx, tier):
+        if idx % 25 == 12:
+            # the run-parameter class at the level where it takes effect: a block with its own Err_Tolerance / MaxTime lines is
+            # read by a solver object that has already read AND solved another block with other run parameters
+            a = round(rng.uniform(0.3, 0.9), 2)
+            return {'kind': 'run_parameters_on_reused_solver', 'a': a, 'c': round(rng.uniform(0.1, 0.9), 2), 'g': float(rng.randint(5, 40)),
+                    'tol_first': rng.choice([0.5, 0.1, None]), 'tol_second': rng.choice(['1e-9', '1e-6', '0.001', '0.2']),
+                    'maxtime_first': rng.randint(2, 9), 'maxtime_second': rng.randint(2, 9), 'reduce': rng.random() < 0.5,
+                    'comment': rng.choice(['', ' # tolerance = 5', ' # exogenous'])}
         if idx % 25 == 24:
-            case = {'kind': 'model_desc', 'hseed': rng.getrandbits(30),
+            case = {'kind': 'model_desc', 'hseed': rng.getrandbits(30), 'with_log_files': (idx // 25) % 2 == 0,
                     'builder': rng.choice(['SIM', 'PC', 'SIMEX1', 'SPEC', 'SPEC']), 'maxtime': 4}
             if case['builder'] == 'SPEC':
                 from vf.gen import modelspec as M
@@ -196,9 +207,55 @@ class C14(object):
                 'exo': [tuple(x) for x in p.Exogenous], 'ic': dict(p.InitialConditions),
                 'maxtime': p.MaxTime, 'tol': p.Err_Tolerance}
 
+    def run_reused_solver(self, case):
+        from sfc_models.equation_solver import EquationSolver
+        rec = monitors.Recorder()
+        first = 'x = 0.9*x + 0.05*LAG_x + 3.\nLAG_x = x(k-1)\nx(0) = 1.\nMaxTime = %d\n' % case['maxtime_first']
+        if case['tol_first'] is not None:
+            first += 'Err_Tolerance = %r\n' % case['tol_first']
+        second = ('x = %r*x + %r*LAG_y + g\ny = %r*x\nLAG_y = y(k-1)\nx(0) = 1.\ny(0) = 2.\nErr_Tolerance = %s%s\nMaxTime = %d\nexogenous\ng = [%r]*20'
+                  % (case['a'], round((1 - case['a']) / 2, 3), case['c'], case['tol_second'], case['comment'], case['maxtime_second'], case['g']))
+
+        def solve(prehistory):
+            with contextlib.redirect_stdout(io.StringIO()):
+                sv = EquationSolver(run_equation_reduction=case['reduce'])
+                if prehistory:
+                    sv.ParseString(first)
+                    sv.SolveEquation()
+                sv.ParseString(second)
+                sv.SolveEquation()
+            return sv
+        try:
+            fresh = solve(False)
+        except Exception as e:
+            return {'verdict': 'notjudged', 'shape': 'reused_solver|' + type(e).__name__, 'obs': {'err': repr(e)[:200]}}
+        try:
+            used = solve(True)
+        except Exception as e:
+            rec.violate('reused_solver_fails', {'err': repr(e)[:300], 'second_block': second})
+            return {'verdict': 'violated', 'shape': 'reused_solver', 'counters': rec.counters, 'violations': rec.violations}
+        rec.count('run_parameters_on_reused_solver.judged')
+        fa, fb = dict(fresh.TimeSeries), dict(used.TimeSeries)
+        if sorted(fa) != sorted(fb):
+            rec.violate('run_parameter_of_later_block_not_honoured', {'series_only_fresh': sorted(set(fa) - set(fb)), 'series_only_reused': sorted(set(fb) - set(fa))})
+        else:
+            for n in sorted(fa):
+                if repr(list(fa[n])) != repr(list(fb[n])):
+                    rec.violate('run_parameter_of_later_block_not_honoured',
+                                {'series': n, 'fresh_solver': list(fa[n])[:6], 'solver_that_solved_another_block_before': list(fb[n])[:6],
+                                 'Err_Tolerance_line_of_this_block': case['tol_second'], 'Err_Tolerance_of_the_earlier_block': case['tol_first'],
+                                 'MaxTime_lines': [case['maxtime_first'], case['maxtime_second']]})
+                    break
+        if not rec.violations and len(fa['x']) != case['maxtime_second'] + 1:
+            rec.violate('maxtime_wrong', {'got_points': len(fa['x']), 'MaxTime_line': case['maxtime_second']})
+        return {'verdict': 'violated' if rec.violations else 'held', 'nontrivial': True, 'shape': 'reused_solver',
+                'counters': rec.counters, 'violations': rec.violations}
+
     def run_case(self, case):
         if case['kind'] == 'model_desc':
             return self.run_model_desc(case)
+        if case['kind'] == 'run_parameters_on_reused_solver':
+            return self.run_reused_solver(case)
         rec = monitors.Recorder()
         rng = random.Random(case['cseed'])
         if case['cseed'] % 5 == 0:
@@ -365,6 +422,22 @@ class C14(object):
                                          else 'a wide row'), ' + '.join(['0.125*XTRA'] * 14))
             if hostile:
                 mod.CountryList[0].LongName = rr.choice(HOSTILE)
+            if case.get('with_log_files'):
+                # the usual way of running a model script: log files are registered, so the model's dump of every sector (with
+                # the users' free texts) and the final equations go through the logging helper
+                import tempfile, shutil
+                from sfc_models.utils import Logger
+                d = tempfile.mkdtemp(prefix='vf_c14_')
+                Logger.cleanup()
+                Logger.register_standard_logs(d + '/m')
+                try:
+                    with contextlib.redirect_stdout(io.StringIO()):
+                        mod.main()
+                finally:
+                    Logger.cleanup()
+                    shutil.rmtree(d, ignore_errors=True)
+                rec.count('model_desc.builds_with_log_files_registered')
+                return mod
             with contextlib.redirect_stdout(io.StringIO()):
                 mod.main()
             return mod
